@@ -1,0 +1,66 @@
+//go:build verif
+
+package extendeddaemonset
+
+// Contracts read by the verification engine in /verif (govc). Comment-only file.
+//
+//@ import v1 "github.com/DataDog/extendeddaemonset/api/v1alpha1"
+//@ import conditions "github.com/DataDog/extendeddaemonset/controllers/extendeddaemonsetreplicaset/conditions"
+//@
+//@ func IsRollingUpdatePaused
+//@   transparent
+//@   ensures [C08] result <==> dsAnnotations["extendeddaemonset.datadoghq.com/rolling-update-paused"] == "true"
+//@ func IsRolloutFrozen
+//@   transparent
+//@   ensures [C08] result <==> dsAnnotations["extendeddaemonset.datadoghq.com/rollout-frozen"] == "true"
+//@ func IsCanaryDeploymentUnpaused
+//@   transparent
+//@   ensures [C06,C08] result <==> dsAnnotations["extendeddaemonset.datadoghq.com/canary-unpaused"] == "true"
+//@ func IsCanaryDeploymentValid
+//@   transparent
+//@   ensures [C05,C19] result <==> ("extendeddaemonset.datadoghq.com/canary-valid" in dsAnnotations) && dsAnnotations["extendeddaemonset.datadoghq.com/canary-valid"] == rsName
+//@ func IsCanaryDeploymentFailed
+//@   transparent
+//@   ensures [C05,C07] result <==> ers != nil && conditions.IsConditionTrue(&ers.Status, v1.ConditionTypeCanaryFailed)
+//@ func IsCanaryDeploymentPaused
+//@   transparent
+//@   ensures [C05,C08] result <==> (ers != nil && conditions.IsConditionTrue(&ers.Status, v1.ConditionTypeCanaryPaused))
+//@             || dsAnnotations["extendeddaemonset.datadoghq.com/canary-paused"] == "true"
+//@
+//@ func IsCanaryDeploymentEnded
+//@   transparent
+//@   requires rs != nil
+//@   let rc = conditions.GetExtendedDaemonSetReplicaSetStatusCondition(&rs.Status, v1.ConditionTypePodRestarting)
+//@   let lastRestart = ite(rc != nil, rc.LastUpdateTime.Time, 0)
+//@   ensures [C05] no-strategy: specCanary == nil ==> result
+//@   let timeOK = specCanary.Duration != nil
+//@             && now > rs.ObjectMeta.CreationTimestamp.Time + specCanary.Duration.Duration
+//@             && (specCanary.NoRestartsDuration == nil || lastRestart == 0 || now > lastRestart + specCanary.NoRestartsDuration.Duration)
+//@   ensures [C05] only-if: specCanary != nil && result ==> timeOK
+//@   ensures if-positive-duration: specCanary != nil && timeOK && specCanary.Duration.Duration > 0 ==> result
+//@   ensures [C05] wakeup: specCanary != nil && specCanary.Duration != nil && !result ==>
+//@             result1 >= rs.ObjectMeta.CreationTimestamp.Time + specCanary.Duration.Duration - now
+//@
+//@ func selectCurrentReplicaSet
+//@   requires daemonset != nil && upToDateRS != nil
+//@   let C = daemonset.Spec.Strategy.Canary
+//@   let A = daemonset.ObjectMeta.Annotations
+//@   requires C != nil ==> C.ValidationMode == "auto" || C.ValidationMode == "manual"
+//@   requires validated: C != nil && C.ValidationMode == "manual" ==> C.Duration == nil && C.NoRestartsDuration == nil
+//@   let rc = conditions.GetExtendedDaemonSetReplicaSetStatusCondition(&upToDateRS.Status, v1.ConditionTypePodRestarting)
+//@   let lastRestart = ite(rc != nil, rc.LastUpdateTime.Time, 0)
+//@   let created = upToDateRS.ObjectMeta.CreationTimestamp.Time
+//@   let timeOK = C.Duration != nil && now > created + C.Duration.Duration
+//@             && (C.NoRestartsDuration == nil || lastRestart == 0 || now > lastRestart + C.NoRestartsDuration.Duration)
+//@   let paused = fst(IsCanaryDeploymentPaused(A, upToDateRS))
+//@   let failed = IsCanaryDeploymentFailed(upToDateRS)
+//@   let valid = IsCanaryDeploymentValid(A, upToDateRS.ObjectMeta.Name)
+//@   ensures [C05] one-of: result == activeRS || result == upToDateRS
+//@   ensures [C05] adopt-when-active-missing: activeRS == nil ==> result == upToDateRS
+//@   ensures [C05] promotion: result == upToDateRS && activeRS != nil && activeRS != upToDateRS ==>
+//@             C == nil || valid || (C.ValidationMode == "auto" && timeOK && !paused && !failed)
+//@   ensures [C05] failed-never-by-time: activeRS != nil && activeRS != upToDateRS && C != nil && failed && !valid ==> result == activeRS
+//@   ensures [C05] manual-never-by-time: activeRS != nil && activeRS != upToDateRS && C != nil && C.ValidationMode == "manual" && !valid ==> result == activeRS
+//@   ensures [C05,C08] paused-not-promoted-by-time: activeRS != nil && activeRS != upToDateRS && C != nil && paused && !valid ==> result == activeRS
+//@   ensures promotes-when-allowed: activeRS != nil && activeRS != upToDateRS &&
+//@             (C == nil || valid || (C.ValidationMode == "auto" && timeOK && C.Duration.Duration > 0 && !paused && !failed)) ==> result == upToDateRS
